@@ -85,6 +85,12 @@ def producers(env):
         # list that a built-in hands on unchanged (INDEX picks it, CHOOSE / IF / IFERROR return it)
         P.append(dict(text='lv%s' % 'abcdefgh'[i], code=c, kind='listener-variable-fresh'))
         P.append(dict(text='INDEX(xerrs,%d)' % (i + 1), code=c, kind='picked-from-host-list'))
+    for i, c in enumerate(CODES8):
+        # an error inside a one-item list, a one-cell range, three lists deep (shared object / of the host's own making): the
+        # one value such an operand is - under every operator, on either side, whatever the other operand
+        P.append(dict(text='ow%s' % 'abcdefgh'[i], code=c, kind='one-item-list'))
+        P.append(dict(text='oc%s' % 'abcdefgh'[i], code=c, kind='one-cell-fresh'))
+        P.append(dict(text='od%s' % 'abcdefgh'[i], code=c, kind='nested3-fresh'))
     P.append(dict(text='CHOOSE(2,1,INDEX(xerrs,7))', code='#N/A', kind='picked-from-host-list'))
     P.append(dict(text='IF(TRUE,INDEX(xerrs,7),1)', code='#N/A', kind='picked-from-host-list'))
     P.append(dict(text='IFERROR(1/0,INDEX(xerrs,7))', code='#N/A', kind='picked-from-host-list'))
@@ -92,7 +98,7 @@ def producers(env):
     return P
 
 
-NPRODUCERS = 104
+NPRODUCERS = 128
 
 
 LITERALS = ['#NULL!', '#DIV/0!', '#VALUE!', '#REF!', '#NAME?', '#NUM!', '#N/A', '#ERROR!', '#GETTING_DATA']
@@ -121,6 +127,11 @@ def bind(env):
     for i in range(8):
         vars['fv%s' % 'abcdefgh'[i]] = env.err.XLError(CODES8[i])
         cells['$F$%d' % (i + 1)] = env.err.XLError(CODES8[i])
+    for i in range(8):
+        vars['ow%s' % 'abcdefgh'[i]] = [errs[i]]
+        vars['oc%s' % 'abcdefgh'[i]] = [[env.err.XLError(CODES8[i])]]
+        vars['od%s' % 'abcdefgh'[i]] = [[[env.err.XLError(CODES8[i])]]]
+    vars['vempty'] = []
     vars['xerrs'] = [env.err.XLError(c) for c in CODES8]
     vars['xgrid'] = [[1, 2], [env.err.XLError('#N/A'), 4]]
     for i in range(8):
@@ -128,7 +139,7 @@ def bind(env):
     return vars, {'FRAISE': fraise, 'FRET': fret, 'FRAISEF': fraisef, 'FRETF': fretf}, cells
 
 
-OTHERS = ['"abc"', '""', '"5"', 'TRUE', 'vblank', '0.5', '{1,2}', '"2020-01-31"', 'SUM(1,2)', '("a"&"b")', 'vtext']
+OTHERS = ['"abc"', '""', '"5"', 'TRUE', 'vblank', '0.5', '{1,2}', '"2020-01-31"', 'SUM(1,2)', '("a"&"b")', 'vtext', 'vempty']
 
 
 def benign(op):
@@ -238,8 +249,8 @@ class LeftWins(Sub):
     min_nontrivial = 500
 
     def kinds(self, tier):
-        return ('host-variable', 'custom-returns') if tier == 'quick' else \
-            ('host-variable', 'custom-returns', 'custom-raises', 'host-cell')
+        return ('host-variable', 'custom-returns', 'one-cell-fresh') if tier == 'quick' else \
+            ('host-variable', 'custom-returns', 'custom-raises', 'host-cell', 'one-item-list', 'one-cell-fresh', 'nested3-fresh')
 
     def cases(self, tier, unit):
         for lk in self.kinds(tier):
